@@ -143,12 +143,31 @@ func DiffPaths(a, b []Entry) []string {
 // ("ustar", "pax", "gnu"). Directories get their own entries; names are relative
 // without a leading "./" unless dotSlash is set.
 func TarDir(dir, dst, format string, dotSlash bool) error {
+	return TarDirAppended(dir, dst, format, dotSlash, nil)
+}
+
+// TarDirAppended writes the archive the way "tar -r" leaves one after an update: an
+// earlier record of index.json (staleIndex, when not nil) comes first, the current
+// tree follows. Readers of a tar archive take the LAST record of a name.
+func TarDirAppended(dir, dst, format string, dotSlash bool, staleIndex []byte) error {
 	f, err := os.Create(dst)
 	if err != nil {
 		return err
 	}
 	defer f.Close()
 	tw := tar.NewWriter(f)
+	if staleIndex != nil {
+		name := "index.json"
+		if dotSlash {
+			name = "./" + name
+		}
+		if err := tw.WriteHeader(&tar.Header{Name: name, Mode: 0o644, Typeflag: tar.TypeReg, Size: int64(len(staleIndex))}); err != nil {
+			return err
+		}
+		if _, err := tw.Write(staleIndex); err != nil {
+			return err
+		}
+	}
 	var tf tar.Format
 	switch format {
 	case "ustar":
